@@ -7,6 +7,7 @@
    `nb_in_range`, `nb_symmetric`, `nb_same_sets` = the hypotheses on the backend's answers. *)
 From Coq Require Import List Arith ZArith Bool Lia.
 From SC Require Import C13.Model C13.Spec C13.ProofsBase C13.ProofsMain C13.ProofsBackend C13.ProofsPredict.
+From SC Require Import C13.Corr C13.ProofsCorr.
 Import ListNotations.
 
 (* Functional correctness of `fit` for every neighbourhood function with indices in range that is
@@ -91,6 +92,21 @@ Theorem C13_predict_plurality : forall y c nbq,
   (r = (-1)%Z <-> nbq = [] \/ (forall l, l < c -> votes_for y nbq l < votes_noise y nbq)).
 Proof. exact predict_plurality. Qed.
 
+(* What an agreeing correspondence case of group fit_linear / fit_cover means: the neighbour lists the
+   implementation's search structure returned satisfy the hypotheses of C13_dbscan_correct (and are
+   duplicate-free), min_samples >= 1, and the model maps them to exactly the labels and num_classes
+   the implementation produced — so C13_dbscan_correct applies to the implementation's output of
+   that run, relative to what its own search structure answered. *)
+Theorem C13_corr_fit_sound : forall minpts nbs exp_y exp_c,
+  corr_fit minpts nbs exp_y exp_c = true ->
+  let nbs' := map to_nats nbs in
+  let n := length nbs' in
+  nb_in_range (nb_of nbs') n /\ nb_symmetric (nb_of nbs') n /\
+  (forall i, i < n -> NoDup (nb_of nbs' i)) /\
+  1 <= N.to_nat minpts /\
+  dbscan (nb_of nbs') (N.to_nat minpts) n = Some (exp_y, exp_c).
+Proof. exact corr_fit_sound. Qed.
+
 (* ---------- the hypotheses are satisfiable on a non-trivial instance ----------
    1-D points 1,1,2,4,6,7,7,20 with eps = 2, min_samples = 4: core points 2 and 4 (two clusters),
    point 3 is a border point within eps of both clusters, point 7 is noise, points 0 and 1 are
@@ -126,6 +142,11 @@ Proof.
     do 8 (destruct i as [|i]; [unfold ex_nb_rev; try (rewrite <- in_rev; tauto);
                                cbn; repeat constructor; cbn; intuition lia|]); lia.
 Qed.
+
+Example C13_example_corr :
+  corr_fit 4 [[0;1;2]; [0;1;2]; [0;1;2;3]; [2;3;4]; [3;4;5;6]; [4;5;6]; [4;5;6]; [7]]%N
+           [0; 0; 0; 0; 1; 1; 1; -1]%Z 2%Z = true.
+Proof. vm_compute. reflexivity. Qed.
 
 Example C13_example_predict :
   let y := [0; 0; 0; 0; 1; 1; 1; -1]%Z in
